@@ -331,6 +331,8 @@ func (e *Engine) dynamicCall(st *State, fr *Frame, site ssa.Instruction, c *ssa.
 		if f.contract != nil {
 			if s, ok := f.contract.FnSpecs[name]; ok {
 				spec = s
+			} else if s, ok := f.contract.FnSpecs["fn"]; ok && !c.IsInvoke() {
+				spec = s
 			}
 		}
 	}
@@ -366,9 +368,14 @@ func (e *Engine) ghostHooks(st *State, fr *Frame, when string, site ssa.Instruct
 	if site != nil {
 		siteName = fr.sites[site]
 	}
+	_, isStatic := c.Value.(*ssa.Function)
 	for _, h := range fr.contract.Ghost {
 		if h.When != when {
 			continue
+		}
+		if h.Callee == "fn" && !c.IsInvoke() && !isStatic && callee != "fn" {
+			// legacy name of a call through a function value
+			callee = "fn"
 		}
 		if h.Callee != callee && h.Callee != siteName && !(strings.HasSuffix(h.Callee, "#0") && strings.TrimSuffix(h.Callee, "#0") == siteName) {
 			continue
@@ -483,6 +490,9 @@ func (e *Engine) applyContract(st *State, fr *Frame, site ssa.Instruction, calle
 	}
 	if ct.Trusted {
 		e.assumed["trusted contract (body not verified): "+ck] = true
+	}
+	if ct.AssumeFrame {
+		e.assumed["assumed frame (modifies clause used at call sites, not checked on the body): "+ck] = true
 	}
 	// implicit precondition: non-nil pointer receiver
 	if callee.Signature.Recv() != nil && len(args) > 0 {
